@@ -5,7 +5,7 @@
     Elements are identified with their *source position* [p] (0-based).  The crate is parametric in
     the element type and never inspects a value, so the value delivered for position [p] is written
     [p] for every kind except ranges, where it is the number [start + p] as the crate computes it. *)
-From OCI Require Export Arith.
+From OCI Require Export Arith Ord.
 
 Definition tid := nat.
 
@@ -91,7 +91,7 @@ Inductive akind := ALoad | AStore | AAdd.
 
 Inductive label :=
 | LCall (t : tid)
-| LAtom (t : tid) (s : site) (k : akind) (arg ret : N)
+| LAtom (t : tid) (s : site) (k : akind) (arg ret : N) (o : ord)
 | LSrc (t : tid) (r : option N)              (* one call of the wrapped iterator's next(): the position it yielded *)
 | LSrcPanic (t : tid).
 
